@@ -192,7 +192,7 @@ impl<'a> Sess<'a> {
 		self.failed = true;
 		let tail: Vec<String> = self.trace.iter().rev().take(40).rev().cloned().collect();
 		self.run.violation(
-			&format!("C18;layer=chainstore;clause={}", clause),
+			&format!("C18;world=chainstore;clause={}", clause),
 			&what,
 			json!({"seed": self.seed, "program": self.prog, "last_ops": tail, "reproduce": format!("c18c --seed {} --only-program {}", self.seed, self.prog)}),
 		);
